@@ -476,3 +476,63 @@ def run_lll(facts, rep):
     w = check_who_may_write(facts, rep, 'yui_matrix::dense::lll::LLLData', WRAPPERS['yui_matrix::dense::lll::LLLData'])
     w += check_who_may_write(facts, rep, 'yui_matrix::dense::lll::LLLHNFCalc', [])
     rep.floor('E6 LLLData direct target mutation sites', w, 3)
+
+
+def check_flag_table(facts, rep):
+    """M5 (C09, "together with (when requested) matrices .." for every subset of the four flags [p, pinv, q, qinv]):
+    SnfCalc::new creates accumulator k exactly when flags[k] is set, with the dimension of its side: p, pinv are m x m
+    identities (row operations), q, qinv n x n (column operations). Read from the struct literal of `new`; the small
+    closure / helper that turns (size, flag) into Option<identity> is applied to its arguments."""
+    from symex import SymEx, strip, apply_closure
+    b = facts.bodies.get('yui_matrix::dense::snf::SnfCalc::<R>::new')
+    if b is None:
+        rep.indet('E6.M5: SnfCalc::new not found')
+        return
+    rep.saw(b)
+    inst = 'SnfCalc::new|accumulator k exists iff flags[k]; p, pinv of size m, q, qinv of size n'
+    want = {'p': ('m', 0), 'pinv': ('m', 1), 'q': ('n', 2), 'qinv': ('n', 3)}
+    got = {}
+    for p in SymEx(b, max_paths=2000).run():
+        r = p.ret
+        if p.end != 'return' or r is None or r[0] != 'adt' or len(r) != 5:
+            continue
+        flds = dict(zip(r[3], r[4]))
+        for name in want:
+            t = strip(flds.get(name, ('none',)))
+            size = flag = None
+            if t[0] == 'call' and len(t[2]) == 2 and strip(t[2][0])[0] == 'closure' and strip(t[2][1])[0] == 'tuple' and len(strip(t[2][1])[1]) == 2:
+                a_size, a_flag = strip(t[2][1])[1]
+                # the helper: Some(id(size)) iff flag
+                outs = set()
+                for q in apply_closure(t[2][0], [('SIZE',), ('FLAG',)]) or []:
+                    if q.end != 'return' or q.ret is None:
+                        continue
+                    conds = [(c.term, c.value) for c in q.branches()]
+                    v = strip(q.ret)
+                    if v[0] == 'adt' and v[2] == 'None' and conds == [(('FLAG',), 0)]:
+                        outs.add('none-if-unset')
+                    elif v[0] == 'adt' and v[2] == 'Some' and len(conds) == 1 and conds[0][0] == ('FLAG',) and conds[0][1] != 0 and strip(v[4][0])[0] == 'call' and strip(v[4][0])[1].split('::')[-1] == 'id' and strip(strip(v[4][0])[2][0]) == ('SIZE',):
+                        outs.add('id-if-set')
+                    else:
+                        outs.add('?')
+                if outs != {'none-if-unset', 'id-if-set'}:
+                    got[name] = ('?', 'helper %s' % sorted(outs))
+                    continue
+                s_ = sk(a_size)
+                size = 'm' if re.match(r'^shape\(&?arg1\)\.0$|^nrows\(&?arg1\)$', s_) else ('n' if re.match(r'^shape\(&?arg1\)\.1$|^ncols\(&?arg1\)$', s_) else None)
+                f_ = strip(a_flag)
+                m_ = re.match(r'^arg2\[(\d)\]$', sk(f_))
+                flag = int(m_.group(1)) if m_ else None
+            if size is None or flag is None:
+                got[name] = ('?', sk(t)[:80])
+            else:
+                got[name] = (size, flag)
+    if set(got) != set(want) or any(v[0] == '?' for v in got.values()):
+        rep.indet('E6.M5: SnfCalc::new outside the recognised fragment: %s' % {k: v for k, v in got.items() if v[0] == '?'} if got else 'E6.M5: SnfCalc::new: no struct literal found')
+    elif got == want:
+        rep.ok('E6.M5-flag-table', inst, 'p: (m, flags[0]), pinv: (m, flags[1]), q: (n, flags[2]), qinv: (n, flags[3])')
+    else:
+        wrong = {k: v for k, v in got.items() if v != want[k]}
+        rep.violation('E6.M5-flag-table', inst,
+                      'SnfCalc::new creates %s: the flags are [p, pinv, q, qinv] and the sizes (m, m, n, n) - a transform that was requested is not returned (and an unrequested one is computed) whenever the two flags differ' % ', '.join('%s from (%s, flags[%d])' % (k, v[0], v[1]) for k, v in sorted(wrong.items())),
+                      where=b.where())
